@@ -18,8 +18,12 @@ is read on the main handle and compared with the specification of the NEW snapsh
 computed by the extracted cycle driver); a second cancelled group and a second read-all follow.
 Reader results of the cancelled group must be the OLD snapshot's value, PendingWrite,
 PropagatedPanic (known finding blocked-reader) or the injected panic.  A wrong value that the
-same history WITHOUT cancellation (the harness' single-threaded REF run) returns as well is the
-cycle engine's known finding, not a finding of this stage."""
+same history WITHOUT any hold point (no cancellation, no panic — the harness' single-threaded REF
+run, or, because the cycle engine's known finding C12 cycle_participant_validated_on_incomplete_edges
+depends on the ENTRY ORDER and two readers pick the order by their interleaving, one of the
+single-threaded linearisations of the readers' requests) returns as well at the same request is
+that known finding, not a finding of this stage.  Nothing a cancellation or a panic leaves behind
+can be reproduced by such a run, so this does not weaken what is demanded of MODE 1 / MODE 2."""
 import os
 import time
 
@@ -61,7 +65,7 @@ def nested_stage(ctx):
                 cases.append(pe.with_hold(c, f"{cid}-m{mode}a{at}", settings))
     spec = pe.specification18(cases, driver)
     out, hung = pe.run_harness18(cases, harness, iters, "os", ctx.seed, trace_cap=0)
-    findings, known = [], []
+    findings, known, lin = [], [], {}
     outcomes = {}
     for c in cases:
         cid = c.split()[1]
@@ -70,8 +74,21 @@ def nested_stage(ctx):
         for f in fs:
             if f["kind"] == "harness" and not hung:
                 raise common.CheckError(f"cyc_par produced no usable output for {cid}: {f}")
-            if f["kind"] != "harness":
-                findings.append((c, f))
+            if f["kind"] == "harness":
+                continue
+            if f["kind"] == "values" and f["detail"]["revision"] > 0:
+                # The cycle engine's single-threaded known finding (C12
+                # cycle_participant_validated_on_incomplete_edges) depends on the ENTRY ORDER: with two
+                # readers the interleaving picks it.  A wrong value that a single-threaded run of the same
+                # history WITHOUT any hold point (no cancellation, no panic: nothing is abandoned) returns
+                # at the same request under some order of the group's requests is that finding, not a leak.
+                b = cid.split("-")[0]
+                if b not in lin:
+                    lin[b] = parcheck.linearisation_results(c, harness, ctx.seed, n=120 if quick else 300)
+                if any(r.get(tuple(f["detail"]["request"])) == f["detail"]["got"] for r in lin[b]):
+                    known.append((cid, dict(iter=f["iter"], other_entry_order=True, **f["detail"])))
+                    continue
+            findings.append((c, f))
         for it in out.get(cid, {}).get("iters", []):
             for key, v in pe.parse_results(it["r"]).items():
                 if v.startswith("p"):
@@ -99,7 +116,8 @@ def nested_stage(ctx):
                            how_to_replay="./vp replay <this file>  (re-runs the case on OS threads; deterministic for one reader)"))
     if known:
         ctx.known_finding(f"class=cycle_participant_validated_on_incomplete_edges (C12) met in stage 2: {len(known)} reads differ from "
-                          "the specification in the cancelled run AND in the same history without cancellation")
+                          "the specification in the cancelled / panicking run AND in a single-threaded run of the same history "
+                          "without any hold point (same or another entry order of the readers' requests)")
     st = pe.stats18(out)
     after_reads = sum(1 for s in spec.values() for k in s["spec"] if s["rev"][k[0]] > 0)
     return {
@@ -112,6 +130,7 @@ def nested_stage(ctx):
                                    "other": {k: v for k, v in outcomes.items() if k not in ACCEPT}},
         "nested_reads_after_a_write_compared_with_kleene_per_repetition": after_reads,
         "nested_findings": len(findings), "nested_known_class_differences": len(known),
+        "nested_linearisation_searches": len(lin),
         "nested_hung": bool(hung),
         "nested_wall_s": round(time.time() - t0, 1),
     }
